@@ -21,7 +21,7 @@ RULE = ("program enumeration: every public name of dir(networkx.Graph) and dir(n
         "(networkx ones, add_interaction and bulk helpers in method and dn. form, with legal arguments) raises and "
         "leaves the snapshot unchanged. distinct = distinct (model state, callable, argument shape); non-trivial = "
         "the state has at least one interaction.")
-MIN = {"quick": {"blocked:raises-NotImplemented": 5000, "blocked:no-trace": 5000, "other:consistent": 20000,
+MIN = {"quick": {"blocked:raises-NotImplemented": 2500, "blocked:no-trace": 2500, "other:consistent": 10000,
                  "frozen:raises": 1200, "frozen:unchanged": 1200},
        "thorough": {"blocked:raises-NotImplemented": 100000, "blocked:no-trace": 100000, "other:consistent": 400000,
                     "frozen:raises": 60000, "frozen:unchanged": 60000}}
